@@ -522,7 +522,16 @@ func c07(c *Ctx) {
 			if s.Fn.Parent() != nil || fnPkgPath(s.Fn) != Mod {
 				continue
 			}
-			if !(strings.HasPrefix(s.Fn.Name(), "Merge") || strings.HasPrefix(s.Fn.Name(), "receive")) {
+			// (Receive itself when the receive helpers were written into the arms of its switch: the arm of the
+			// type is then the region in which the series must be stored exactly once)
+			var arm *ssa.BasicBlock
+			if s.Fn.Name() == "Receive" {
+				cn := map[string]string{"Counter": "COUNTER", "Gauge": "GAUGE", "Timer": "TIMER", "Set": "SET"}[s.T]
+				arm = switchTable(s.Fn)[cn]
+				if arm == nil {
+					continue
+				}
+			} else if !(strings.HasPrefix(s.Fn.Name(), "Merge") || strings.HasPrefix(s.Fn.Name(), "receive")) {
 				continue
 			}
 			key := FuncName(s.Fn) + ":" + s.T
@@ -532,7 +541,11 @@ func c07(c *Ctx) {
 			seenFn[key] = true
 			T := s.T
 			// states: 0 nothing yet, 1 stored once, 2 series found (a path may leave it as it is), 3 stored twice
-			res := runAutomatonE(s.Fn, 0, func(in ssa.Instruction) int {
+			start := 0
+			if arm != nil {
+				start = 4 // outside the arm
+			}
+			res := runAutomatonE(s.Fn, start, func(in ssa.Instruction) int {
 				mu, ok := in.(*ssa.MapUpdate)
 				if !ok {
 					return -1
@@ -542,6 +555,9 @@ func c07(c *Ctx) {
 				}
 				return -1
 			}, func(from, to *ssa.BasicBlock) int {
+				if arm != nil && to == arm {
+					return 2 // entering the arm
+				}
 				cd, ok := edgeCondResolved(from, to)
 				if !ok || !cd.Sense {
 					return -1
@@ -555,6 +571,12 @@ func c07(c *Ctx) {
 				}
 				return -1
 			}, func(st, ev int) int {
+				if st == 4 {
+					if ev == 2 {
+						return 0
+					}
+					return 4
+				}
 				switch {
 				case ev == 0 && (st == 0 || st == 2):
 					return 1
